@@ -18,7 +18,9 @@ func main() {
 		props := fs.String("props", "", "")
 		opts := fs.String("opts", "", "k=v,k=v")
 		fs.Parse(os.Args[2:])
-		workerMain(parseProps(*props), parseOpts(*opts))
+		o := parseOpts(*opts)
+		o["_props"], o["_opts"] = *props, *opts
+		workerMain(parseProps(*props), o)
 		return
 	}
 	if len(os.Args) < 2 {
